@@ -6,8 +6,8 @@ Safe == TypeOK /\ Routed /\ TerminalLocal /\ NothingAfterTerminal /\ SharedOnlyI
 \* "slow upstream": the server acts only when the client side has nothing left to do, callers act at any time.
 \* (Spec = everything interleaves with everything; SpecQ is what makes three subscribers tractable.)
 SrvEnv ==
-  \/ \E c \in Conn : SrvUpgrade(c) \/ SrvReject(c) \/ SrvAck(c) \/ SrvInitFail(c) \/ SrvClose(c)
-  \/ \E c \in Conn, s \in Subs, k \in Kinds : SrvSend(c, s, k)
+  \/ \E c \in Conn : SrvUpgrade(c) \/ SrvReject(c) \/ SrvAck(c) \/ SrvInitFail(c) \/ SrvClose(c, 0) \/ SrvMute(c)
+  \/ \E c \in Conn, s \in Subs, k \in Kinds : SrvSend(c, s, k, IF k = "next" THEN "d" ELSE "-")
 NextQ == \/ \E s \in Subs : Call(s) \/ Cancel(s)
          \/ Quiescent /\ SrvEnv
          \/ \E s \in Subs : InternalSub(s)
